@@ -33,7 +33,7 @@ TVal == Is("val") /\ cur[<<Ev[2], Ev[3]>>] = Ev[4] /\ UNCHANGED vars
 \* entering the finally clause (after a fault or a normal finish) and destroying the simulation
 TDestroy == /\ Is("destroy") /\ pc \in {"setup", "run", "c1"}
             /\ pc' = "c2" /\ outcome' = IF pc = "c1" THEN outcome ELSE IF Ev[2] THEN "ok" ELSE "fault"
-            /\ UNCHANGED <<sim, proxied, running, flagged, brun, ledger, shadow, seen, cur, orig, nops>>
+            /\ UNCHANGED <<sim, proxied, running, flagged, brun, ledger, shadow, seen, cur, orig, nops, ns, buf>>
 TUnproxy == Is("unproxy") /\ DisableProxies
 TEnd == Is("end") /\ EndSimulation
 \* the end of the run: Lifecycle's Quiescent must hold in the model state the events led to
